@@ -35,9 +35,24 @@ func (s *gRPCServer) Close() error {
 	return nil
 }
 
+// Shutdown stops accepting new connections and waits for the running calls
+// to finish. When ctx is done before that it stops the server forcibly,
+// which closes the remaining connections, so that a stream which never
+// ends cannot delay the shutdown beyond the configured wait.
 func (s *gRPCServer) Shutdown(ctx context.Context) error {
-	s.server.GracefulStop()
-	return nil
+	done := make(chan struct{})
+	go func() {
+		s.server.GracefulStop()
+		close(done)
+	}()
+	select {
+	case <-done:
+		return nil
+	case <-ctx.Done():
+		s.server.Stop()
+		<-done
+		return ctx.Err()
+	}
 }
 
 func (s *gRPCServer) Serve(lis net.Listener) error {
